@@ -572,6 +572,17 @@ func (p c09) Run(w *mon.Worker, idx int) mon.Result {
 	}
 	tags["result:"+c09ResultClass(full)] = true
 
+	// ties: operators of one level written without brackets group to the right (`a - b - c` is `a - (b - c)`,
+	// `a * b - c` is `a * (b - c)`): the spelling that leaves the brackets of such right operands out means the same
+	if tieP := gen.C09Print(e, gen.C09Mode{WrapLow: low, TieRight: true}); tieP.Ties > 0 && !cr.light {
+		tieS := gen.C09Canonical(tieP.Toks)
+		out.Variants["equal-levels-unbracketed"] = tieS
+		tags["layout:equal-levels-unbracketed"] = true
+		if d := c09Diff(base, cr.observe(tieS, true), false); len(d) > 0 {
+			fails = append(fails, c09Fail{oracle: "O1/O2 right operand of the same level unbracketed vs bracketed", detail: strings.Join(d, "\n  ")})
+		}
+	}
+
 	// variants of the minimal spelling: layout and redundant parentheses
 	k1 := gen.C09Layouts[idx%len(gen.C09Layouts)]
 	variant := func(name string, text string, exact bool) {
